@@ -137,6 +137,13 @@ Section Out.
     | o :: r => final (fst (step s o)) r
     end.
 
+  (** the publication times retained after every op (what [Output.data] holds, oldest first) *)
+  Fixpoint run_times (s : state) (ops : list op) : list (list Z) :=
+    match ops with
+    | [] => []
+    | o :: r => let s' := fst (step s o) in map fst (st_hist s') :: run_times s' r
+    end.
+
   Definition init (keys : list nat) : state :=
     mk [] (map (fun k => (k, None)) keys).
 End Out.
@@ -159,7 +166,10 @@ Definition obs_eqb (a b : option (res nat) * nat) : bool :=
   option_eqb res_eqb (fst a) (fst b) && Nat.eqb (snd a) (snd b).
 
 Definition c09_case : Type := list nat * list (op nat).
-Definition c09_obs : Type := list (option (res nat) * nat).
-Definition c09_model (c : c09_case) : c09_obs := run (init (fst c)) (snd c).
+(** observation: per op (pull result, len(output.data)); per op the retained publication times *)
+Definition c09_obs : Type := list (option (res nat) * nat) * list (list Z).
+Definition c09_model (c : c09_case) : c09_obs :=
+  (run (init (fst c)) (snd c), run_times (init (fst c)) (snd c)).
 Definition c09_check (x : c09_case * c09_obs) : bool :=
-  list_eqb obs_eqb (c09_model (fst x)) (snd x).
+  list_eqb obs_eqb (fst (c09_model (fst x))) (fst (snd x))
+  && list_eqb (list_eqb Z.eqb) (snd (c09_model (fst x))) (snd (snd x)).
